@@ -178,15 +178,15 @@ func rowsrestGTIN(value int64) string {
 func rowsrestRSSValue(r *Rng) int64 {
 	switch r.Intn(5) {
 	case 0:
-		return []int64{0, 1, 4537076, 4537077, 9999999999999, 1234567890123, 2841 * 1597, 160 * 1597, 161 * 1597}[r.Intn(9)]
+		return []int64{0, 1, 4537076, 4537077, 9999999999999, 10000000000000, 4537077*4537077 - 1, 1234567890123, 2841 * 1597, 160 * 1597, 161 * 1597}[r.Intn(11)]
 	case 1: // boundaries of the character groups
 		b := []int{0, 160, 161, 960, 961, 2014, 2015, 2714, 2715, 2840}[r.Intn(10)]
 		in := []int{0, 335, 336, 1035, 1036, 1515, 1516, 1596}[r.Intn(8)]
-		v := (int64(b*1597+in))*4537077 + int64(r.Intn(4537077))
-		if v > 9999999999999 {
-			v %= 10000000000000
-		}
-		return v
+		// NOT reduced to 13 digits: the symbol space (4537077^2 values) is larger than the GTIN range, and a row
+		// carrying a 14-digit value is a row like any other for "any pixel row" (C06)
+		return (int64(b*1597+in))*4537077 + int64(r.Intn(4537077))
+	case 2: // beyond the GTIN range: left half >= 2204063
+		return int64(2204063+r.Intn(4537077-2204063))*4537077 + int64(r.Intn(4537077))
 	}
 	return int64(r.U64() % 10000000000000)
 }
